@@ -186,6 +186,17 @@ func Print(f *ast.File) ([]byte, error) {
 // normalisations cancel out; the error is non-nil when the tree does not
 // denote parseable Go.
 func Tree(f *ast.File, o Options) (canon string, printed []byte, err error) {
+	// go/printer prints the operand of "*" as it is (the parser never leaves a binary expression there
+	// without its parentheses): a tree built by instantiation needs the grouping made explicit, or
+	// printing it would not be faithful ("*(a + b)" would come out as "*a + b").
+	ast.Inspect(f, func(n ast.Node) bool {
+		if star, ok := n.(*ast.StarExpr); ok {
+			if x, ok := star.X.(*ast.BinaryExpr); ok {
+				star.X = &ast.ParenExpr{Lparen: 1, X: x, Rparen: 1}
+			}
+		}
+		return true
+	})
 	printed, err = Print(f)
 	if err != nil {
 		return "", nil, err
